@@ -1,7 +1,7 @@
 """C02 — a saved model reloads to exactly what was in memory.
 
 Monitor (independent of the model): random edit histories through the public API (create / delete / move /
-attribute-set / reference-set / specification-set, strings over the XML-legal alphabet, types that need a namespace
+attribute-set (also on diagrams, which live in the .aird) / reference-set / specification-set, strings over the XML-legal alphabet, types that need a namespace
 the file did not declare: requirements, property values) on scratch copies of corpus models; at random points
 `model.save()`, reload with a fresh `MelodyModel`, compare every fragment's lxml tree element by element with the
 tree that was in memory (same elements in the same order, same attributes, text and namespaces) and a set of API
@@ -33,7 +33,8 @@ TABLES = True
 LEVEL = "proof"
 RULE = ("edit histories of 5..40 API operations (set name/summary/description, create component / function / port / "
         "constraint / state machine / property value (group) / requirement module / requirement / relation, delete, move "
-        "into another parent, allocate / deallocate, bool and enum attributes, specification bodies) on scratch copies "
+        "into another parent, allocate / deallocate, bool and enum attributes, specification bodies, diagram name / "
+        "description) on scratch copies "
         "of corpus models [quick: writemodel + one history on the 5.0 test model; thorough: also 5.2/6.0, library, pvmt], "
         "strings over an alphabet of every escapable character, TAB LF CR, ]]>, white-space-only strings, U+0085/A0/2028, "
         "astral code points and random XML-legal code points; a save + fresh reload after each operation with "
@@ -148,15 +149,39 @@ def queries(model, uuids: list | None = None, touched: set | None = None, limit:
                     or (touched and getattr(o, "uuid", None) in touched)]
     else:
         objs = []
+        dg_ids = set()
+        try:
+            dg_ids = {dg.uuid for dg in model.diagrams}
+        except Exception:  # noqa: BLE001
+            pass
         for u in uuids:
+            if u in dg_ids:
+                continue
             try:
                 objs.append(model.by_uuid(u))
             except KeyError:
                 out[u] = {"missing": True}
+    try:
+        dgs = list(model.diagrams)
+    except Exception:  # noqa: BLE001
+        dgs = []
+    for dg in dgs:
+        if uuids is not None and dg.uuid not in uuids:
+            continue
+        rec = {"type": "Diagram"}
+        for attr in ("name", "description"):
+            try:
+                v = getattr(dg, attr)
+                rec[attr] = str(v) if v is not None else None
+            except Exception:  # noqa: BLE001
+                pass
+        out[dg.uuid] = rec
     for o in objs:
         try:
             u = o.uuid
         except Exception:  # noqa: BLE001
+            continue
+        if u in out:
             continue
         rec = {"type": type(o).__name__}
         for attr in ("name", "summary", "description", "long_name", "value"):
@@ -235,6 +260,7 @@ class History:
         self.log: list = []
         self.ok_since_save = 0
         self._objs = None
+        self._diagrams = None
         self.touched: set = set()
         self.model_checked: set = set()
 
@@ -244,6 +270,14 @@ class History:
             ld = self.m._loader
             self._objs = [o for o in self.m.search() if ld.find_fragment(o._element).parts[0] == "\0"]
         return self._objs
+
+    def diagrams(self):
+        if self._diagrams is None:
+            try:
+                self._diagrams = list(self.m.diagrams)
+            except Exception:  # noqa: BLE001
+                self._diagrams = []
+        return self._diagrams
 
     def pick(self, *names):
         cands = [o for o in self.objs() if type(o).__name__ in names]
@@ -268,6 +302,13 @@ class History:
                 self.touched.add(o.uuid)
                 self.out.hit("op:spec-boundary")
                 self.log.append({"op": "set specification (boundary)", "arg": s})
+            dgs = self.diagrams()
+            if dgs:
+                dg = self.rng.choice(dgs)
+                dg.name = "D " + s
+                self.touched.add(dg.uuid)
+                self.out.hit("op:diagram-boundary")
+                self.log.append({"op": "set Diagram.name (boundary)", "arg": "D " + s})
             o = self.rng.choice(self.objs())
             o.name = s
             self.touched.add(o.uuid)
@@ -279,7 +320,8 @@ class History:
 
     def step(self):
         rng, m = self.rng, self.m
-        op = rng.choice(["set_str"] * 5 + ["create"] * 4 + ["delete", "move", "alloc", "flag", "spec", "spec", "req", "pv"])
+        op = rng.choice(["set_str"] * 5 + ["create"] * 4 + ["delete", "move", "alloc", "flag", "spec", "spec", "req", "pv",
+                         "diagram", "diagram"])
         s = rand_str(rng)
         desc = op
         try:
@@ -288,6 +330,16 @@ class History:
                 attr = rng.choice(["name", "name", "summary", "description"])
                 setattr(o, attr, s)
                 desc = f"set {type(o).__name__}.{attr}"
+            elif op == "diagram":
+                # diagrams live in the visual fragment (.aird) of the primary resource; name / description are writable
+                dgs = self.diagrams()
+                if not dgs:
+                    return
+                dg = rng.choice(dgs)
+                attr = rng.choice(["name", "name", "description"])
+                setattr(dg, attr, s)
+                self.touched.add(dg.uuid)
+                desc = f"set Diagram.{attr}"
             elif op == "create":
                 kind = rng.choice(["components", "functions", "ports", "constraints", "state_machines", "property_value_groups"])
                 if kind == "functions":
